@@ -43,7 +43,7 @@ ASSUMPTIONS = ["the reclamation bound is circuit_timeout + (hops + 2) x (max_tim
 REACH = ["dropped:destroy", "dropped:CreatedPayload", "dropped:ExtendedPayload", "dropped:ExtendPayload", "dropped:CreatePayload", "dropped:relayed_handshake",
          "reclaimed_by_timeout_only", "exit_transports_closed", "originator_crash", "join_refused_at_limit",
          "relay_early_over_budget_dropped", "exit_wants_unbuildable_tunnels", "chatty_outside_peer", "phase:half", "phase:ready", "phase:transfer",
-         "phase:first_packet", "teardown_right_behind_first_packet"]
+         "phase:first_packet", "teardown_right_behind_first_packet", "pool_node_wants_tunnels"]
 
 DESTROY_ID = 8
 CONTROL = ("CreatePayload", "CreatedPayload", "ExtendPayload", "ExtendedPayload")
@@ -91,6 +91,14 @@ def cases(tier: str, base_seed: int):  # noqa: ANN201
                     for drops in ([], *[[d] for d in destroys], destroys):
                         yield {"seed": base_seed, "knobs": {"lat_jit": 0.0}, "cfg": cfg, "drops": [list(d) for d in drops],
                                "extra": extra}
+    # a pool node that wants tunnels itself and cancels fresh circuits, then has to reclaim an abandoned circuit by its timers
+    for hops in (1, 2):
+        for node in ("exit", "hop1"):
+            if node == "hop1" and hops < 2:
+                continue
+            for t in (0.5, 2.5):
+                yield {"seed": base_seed, "knobs": {"lat_jit": 0.0}, "cfg": {"hops": hops, "who": "crash", "phase": "ready"}, "drops": [],
+                       "extra": [{"kind": "hop_wants_tunnels", "node": node, "t": t}]}
     # the first data packet chased by the teardown, with and without the removal grace period
     for hops in (1, 2):
         for who in ("originator", "exit"):
@@ -132,6 +140,7 @@ def cases(tier: str, base_seed: int):  # noqa: ANN201
                  "t": rng.choice([1.0, 5.0, 20.0])},
                 {"kind": "greedy"}, {"kind": "join_limit", "limit": rng.choice([1, 2, 3])},
                 {"kind": "exit_wants_tunnels"}, {"kind": "chatty_outside", "every": rng.choice([3.0, 5.0, 15.0])},
+                {"kind": "hop_wants_tunnels", "node": rng.choice(["exit", "hop1"]), "t": rng.choice([0.3, 1.0, 2.5, 4.0])},
                 {"kind": "stall", "node": rng.choice(["hop1", "exit"]), "t": rng.choice([0.5, 3.0]), "d": rng.choice([2.0, 30.0])}]))
         yield {"seed": seed, "cfg": cfg, "extra": extra,
                "knobs": {"lat_jit": rng.choice([0.0, 0.05, 0.3]), "loss": rng.choice([0.0, 0.1, 0.3]), "dup": rng.choice([0.0, 0.1]),
@@ -227,6 +236,25 @@ def execute(case: dict) -> dict:  # noqa: C901, PLR0915
                 return path[-1] if len(path) == hops else None
             return None
 
+        wants = next((e for e in extra if e["kind"] == "hop_wants_tunnels"), None)
+        if wants is not None:
+            # a node of the pool is itself an application that wants 2-hop tunnels (quota 2), and twice it cancels a circuit it
+            # has just started (a half-built teardown), 3 s apart, so that a sweep tick finds a deficit while a closing,
+            # still hop-less circuit sits in its table
+            z = tw.nodes[hops + 1] if wants.get("node") == "exit" else tw.nodes[1]
+            st["wants_node"] = z
+            z.ov.settings.max_circuits = 2
+            z.call(z.ov.build_tunnels, 2)
+            world.probe("pool_node_wants_tunnels")
+
+            def cancel_fresh() -> None:
+                if z.name in loop.dead:
+                    return
+                cz = z.call(z.ov.create_circuit, 2)
+                if cz is not None:
+                    z.call(z.ov.remove_circuit, cz.circuit_id, "c09: application cancels", destroy=1)
+            loop.call_later(wants.get("t", 1.0), cancel_fresh)
+            loop.call_later(wants.get("t", 1.0) + 3.0, cancel_fresh)
         # seeded extra faults on their own timers
         for e in extra:
             if e["kind"] == "crash":
@@ -319,6 +347,13 @@ def execute(case: dict) -> dict:  # noqa: C901, PLR0915
             for owner in (tw.nodes[0], tw.nodes[1]):
                 if owner.name not in loop.dead and extra_c.circuit_id in owner.ov.circuits:
                     owner.call(owner.ov.remove_circuit, extra_c.circuit_id, "c09 extra", destroy=1)
+        if st.get("wants_node") is not None:
+            z = st["wants_node"]
+            await asyncio.sleep(12.0)           # at least two sweep ticks with the quota in force
+            if z.name not in loop.dead:
+                z.ov.circuits_needed.clear()
+                for cid in list(z.ov.circuits):
+                    z.call(z.ov.remove_circuit, cid, "c09: application stops", destroy=1)
         if case.get("profile"):
             await asyncio.sleep(90.0)      # let destroys, retries and time-out driven teardowns happen so that the profile has them
             return
